@@ -86,12 +86,92 @@ def semantic_check(t, dump, rng):
     return None
 
 
+def gen_near_cancel(rng):
+    """trees whose coefficients cancel almost, but not exactly: a*u - (a + 2^-k)*u and variants (all numbers and
+    all intermediate results exactly representable, so a dropped tiny coefficient is a change of meaning)"""
+    a = rng.choice([1, 2, 3, 0.5, 1.5, -2, 0.25, 7])
+    tiny = 2.0 ** -rng.choice([30, 40, 45, 48])
+    b = a + tiny * rng.choice([1, -1, 3])
+    shape = rng.randrange(7)
+    x = ("PVar", rng.randrange(NP))
+    y = ("PVar", rng.randrange(NP))
+    e = ("XVar", rng.randrange(NX))
+    if shape == 0:
+        return ("PSub", ("PScalL", a, x), ("PScalL", b, x))
+    if shape == 1:
+        return ("PAdd", ("PScalR", x, a), ("PScalL", -b, x))
+    if shape == 2:
+        return ("XSub", ("XScalL", a, e), ("XScalL", b, e))
+    if shape == 3:
+        return ("XSub", ("XInner", ("PScalL", a, x), y), ("XInner", ("PScalL", b, x), y))
+    if shape == 4:
+        return ("CLe", ("XScalL", a, e), ("XAddS", ("XScalL", b, e), 1))
+    if shape == 5:
+        return ("XInner", ("PSub", ("PAdd", ("PScalL", a, x), y), ("PScalL", b, x)), ("PVar", rng.randrange(NP)))
+    return ("XAdd", ("XScalL", tiny, ("XInner", x, y)), ("XSubS", ("XScalL", a, e), tiny))
+
+
+def inplace_cases(rng, n):
+    """augmented assignment on DSL objects: `a += b`, `a -= b`, `a *= c`, `a /= c` must behave like the plain
+    operator and must not change the object `a` was bound to (another reference may still hold it)."""
+    cases, problems, trees = [], [], []
+    for _ in range(n):
+        op = rng.choice(["+=", "-=", "+=", "-=", "*=", "/="])
+        isp = rng.random() < 0.45
+        t1 = T.gen_point(rng, 2, NP) if isp else T.gen_expr(rng, 2, NP, NX)
+        if op in ("+=", "-="):
+            if not isp and rng.random() < 0.25:
+                c = T.rand_scalar(rng)
+                tree = ("XAddS", t1, c) if op == "+=" else ("XSubS", t1, c)
+                rhs = ("scalar", c)
+            else:
+                t2 = T.gen_point(rng, 2, NP) if isp else T.gen_expr(rng, 2, NP, NX)
+                tree = (("PAdd" if isp else "XAdd") if op == "+=" else ("PSub" if isp else "XSub"), t1, t2)
+                rhs = ("tree", t2)
+        elif op == "*=":
+            c = T.rand_scalar(rng)
+            tree = ("PScalR" if isp else "XScalR", t1, c)
+            rhs = ("scalar", c)
+        else:
+            c = T.rand_divisor(rng)
+            tree = ("PDiv" if isp else "XDiv", t1, c)
+            rhs = ("scalar", c)
+        P, X = fresh_leaves()
+        pid, xid = T.IdMap(P), T.IdMap(X)
+        a = T.py_eval(t1, P, X)
+        b = T.py_eval(rhs[1], P, X) if rhs[0] == "tree" else rhs[1]
+        alias = a
+        before = list(alias.decomposition_dict.items())
+        before_b = list(b.decomposition_dict.items()) if rhs[0] == "tree" else None
+        try:
+            if op == "+=":
+                a += b
+            elif op == "-=":
+                a -= b
+            elif op == "*=":
+                a *= b
+            else:
+                a /= b
+        except Exception as e:
+            problems.append(dict(kind="implementation-raised", tree=tree, inplace=op, error=repr(e)))
+            continue
+        if list(alias.decomposition_dict.items()) != before or \
+                (before_b is not None and list(b.decomposition_dict.items()) != before_b):
+            problems.append(dict(kind="operand-mutated", tree=tree, inplace=op))
+        d = T.dump_pdict(a.decomposition_dict, pid) if isp else T.dump_edict(a.decomposition_dict, pid, xid)
+        cases.append((coq_input(tree), d))
+        trees.append((tree, d))
+    return cases, trees, problems
+
+
 def correspondence(tier, seed, corpus=()):
     rng = random.Random(seed * 7919 + 6)
     n = 1500 if tier == "quick" else 12000
     trees = list(corpus)
     while len(trees) < n + len(corpus):
         trees.append(gen_tree(rng))
+    for _ in range(n // 8):
+        trees.append(gen_near_cancel(rng))
     cases, dumps, problems = [], [], []
     hist = {}
     distinct = set()
@@ -111,6 +191,11 @@ def correspondence(tier, seed, corpus=()):
         hist[t[0]] = hist.get(t[0], 0) + 1
         if T.size(t) >= 3:
             distinct.add(repr(t))
+    ip_cases, ip_trees, ip_problems = inplace_cases(rng, n // 6)
+    problems += ip_problems
+    cases += ip_cases
+    dumps += ip_trees
+    hist["in-place operators"] = len(ip_cases)
     bad = run_cases("c06", IMPORTS, RUN, cases, input_type=INPUT_TYPE)
     mism = []
     for i in bad[:5]:
@@ -120,7 +205,8 @@ def correspondence(tier, seed, corpus=()):
     sizes = [T.size(t) for t, _ in dumps]
     return dict(name="dsl-trees", evaluations=len(cases), distinct_nontrivial=len(distinct),
                 rule="seeded random DSL trees (points, expressions, comparisons; zero/negative scalars, repeated, "
-                     "cancelling and mirrored operands); non-trivial = at least 3 operator nodes; distinct by syntax",
+                     "cancelling, nearly-cancelling and mirrored operands) plus augmented assignments with an aliased "
+                     "left operand; non-trivial = at least 3 operator nodes; distinct by syntax",
                 mismatches=mism, n_mismatch=len(bad), problems=problems[:5], n_problems=len(problems),
                 samples=[dict(tree=dumps[i][0], result=dumps[i][1]) for i in range(min(2, len(dumps)))],
                 distribution=dict(root_ops=hist, size_min=min(sizes), size_max=max(sizes),
